@@ -9,11 +9,12 @@
 (* which MC_Stream has compared with the machines on every small behaviour.   *)
 EXTENDS Stream, GenBase
 
-CONSTANTS Mode, Shard, NShards
+CONSTANTS Mode, Shard, NShards,
+          Extra        \* further body sizes (the driver derives some from the seed)
 
 VARIABLES v
 
-RealSizes == {12, 13, 255, 256, 257, 512, 4096, 65535}
+RealSizes == {12, 13, 255, 256, 257, 512, 4096, 65535} \cup Extra
 TooBig == 65536
 
 Total(sz) == SumTo(sz, Len(sz))
